@@ -27,11 +27,11 @@ def run(ck):
     enum_cases = en.tagged("ENUM") + en.tagged("ENUMC")
     map_cases = en.tagged("ENUMM")
     B = 150
-    rounds = 3 if quick else 12
+    rounds = 3 if quick else 100
     batches = []
     for r in range(rounds):
         for k in range(0, len(sigs), B):
-            batches.append({"id": len(batches), "batch": sigs[k:k + B], "seed": ck.seed * 1000003 + len(batches), "vectors": 16 if quick else 60})
+            batches.append({"id": len(batches), "batch": sigs[k:k + B], "seed": ck.seed * 1000003 + len(batches), "vectors": 16 if quick else 100})
     res = vlib.run_cases(ck, "stdlibsig", batches, nproc=14, timeout=3000)
     ebatches = [{"id": i, "batch": enum_cases[k:k + 400]} for i, k in enumerate(range(0, len(enum_cases), 400))]
     ebatches += [{"id": len(ebatches) + i, "maps": map_cases[k:k + 200]} for i, k in enumerate(range(0, len(map_cases), 200))]
